@@ -2149,8 +2149,9 @@ Qed.
 (* Part 7: DEHB bracket manager                                              *)
 (* ======================================================================== *)
 
+(* a slot is untouched, holds (trial, value), or was reported as failed without trial: (None, NaN) *)
 Definition dslot_ok (s : slot) : Prop :=
-  match s with (None, None) => True | (Some _, Some _) => True | _ => False end.
+  match s with (None, None) => True | (Some _, Some _) => True | (None, Some NaN) => True | _ => False end.
 
 Record dcur_ok (sl : list slot) (ffp : nat) : Prop := mkDCurOk {
   dco_ffp : (ffp <= length sl)%nat;
@@ -2164,7 +2165,7 @@ Record DB (sys : rung_system) (md : mode) (b : bracket) : Prop := mkDB {
   db_cur : (current_rung b <= length (rungs b))%nat;
   db_filled : forall k e, nth_error (rungs b) k = Some e -> exists sl lv, e = Filled sl lv;
   db_done : forall k sl lv, (k < current_rung b)%nat -> nth_error (rungs b) k = Some (Filled sl lv) ->
-            Forall (fun s => exists t v, s = (Some t, Some v)) sl;
+            Forall (fun s => snd s <> None /\ dslot_ok s) sl;
   db_fut : forall k sl lv, (current_rung b < k)%nat -> nth_error (rungs b) k = Some (Filled sl lv) ->
            (1 <= length sl)%nat /\ Forall (fun s => s = (None, None)) sl;
   db_open : forall sl lv, nth_error (rungs b) (current_rung b) = Some (Filled sl lv) ->
@@ -2274,19 +2275,22 @@ Proof.
   match goal with |- context [if ?c then _ else _] => destruct c end; eauto.
 Qed.
 
-Lemma db_answer : forall sys md b b' r sl lv out t,
+Lemma db_answer : forall sys md b b' r sl lv out,
   DB sys md b -> current_rung_and_level b = Ok (sl, lv) ->
-  dehb_bracket_on_result b r = Ok (b', out) -> trial_id r = Some t -> DB sys md b'.
+  dehb_bracket_on_result b r = Ok (b', out) ->
+  ((exists t, trial_id r = Some t) \/ (trial_id r = None /\ metric_val r = Some NaN)) -> DB sys md b'.
 Proof.
-  intros sys md b b' r sl lv out t B C R T.
-  destruct (dbor_inv _ _ _ _ _ _ C R) as [E1 [E2 [E3 [[t0 N] [v [MV Cases]]]]]]. rewrite T in Cases. cbv zeta in Cases.
+  intros sys md b b' r sl lv out B C R T.
+  destruct (dbor_inv _ _ _ _ _ _ C R) as [E1 [E2 [E3 [[t0 N] [v [MV Cases]]]]]]. cbv zeta in Cases.
   destruct (crl_inv _ _ _ C) as [Nth NC].
   assert (Lc : (current_rung b < length (rungs b))%nat) by (eapply nth_error_lt; eauto).
   assert (CO := db_cur_ok _ _ _ _ _ B C).
-  set (sl' := upd sl (slot_index r) (Some t, Some v)) in *.
+  set (sl' := upd sl (slot_index r) (trial_id r, Some v)) in *.
+  assert (New : dslot_ok (trial_id r, Some v)).
+  { destruct T as [[t T]|[T1 T2]]; [rewrite T; exact I|]. rewrite T1. rewrite T2 in MV. inversion MV. exact I. }
   assert (LEN : length sl' = length sl) by apply upd_length.
   assert (Slots' : Forall dslot_ok sl').
-  { apply Forall_forall. intros s Hs. apply In_upd in Hs. destruct Hs as [->|Hs]; [exact I|].
+  { apply Forall_forall. intros s Hs. apply In_upd in Hs. destruct Hs as [->|Hs]; [exact New|].
     assert (X := dco_slots _ _ CO). rewrite Forall_forall in X. exact (X _ Hs). }
   destruct B as [B1 B2 B3 B4 B5 B6 B7 B8].
   assert (Get : forall k e, nth_error (upd (rungs b) (current_rung b) (Filled sl' lv)) k = Some e ->
@@ -2312,10 +2316,9 @@ Proof.
         exists pos. rewrite Forall_forall in Slots'. assert (X := Slots' _ (nth_error_In _ _ Hp)).
         destruct t1; [contradiction|exact Hp].
     + rewrite upd_length. intro Hc. lia.
-  - assert (Full : Forall (fun s => exists t1 v1, s = (Some t1, Some v1)) sl').
-    { destruct (is_full_spec _ _ F) as [_ Occ]. apply Forall_forall. intros [t1 [v1|]] Hs.
-      - rewrite Forall_forall in Slots'. assert (X := Slots' _ Hs). destruct t1; [eauto|contradiction].
-      - exfalso. apply (Occ _ Hs). reflexivity. }
+  - assert (Full : Forall (fun s => snd s <> None /\ dslot_ok s) sl').
+    { destruct (is_full_spec _ _ F) as [_ Occ]. apply Forall_forall. intros s Hs. split; [exact (Occ _ Hs)|].
+      rewrite Forall_forall in Slots'. exact (Slots' _ Hs). }
     constructor; cbn [rungs current_rung first_free_pos bmode]; auto.
     + rewrite upd_length. lia.
     + intros k sl0 lv0 Hk H. destruct (Get _ _ H) as [[-> E]|[Nq H']].
@@ -2538,13 +2541,14 @@ Proof.
 Qed.
 
 (* an outstanding DEHB job returns *)
-Lemma dret_inv : forall rss md st k bid s t v, rss_ok rss -> DInv rss md st ->
+Lemma dret_inv : forall rss md st k bid s tr v, rss_ok rss -> DInv rss md st ->
   nth_error (d_out st) k = Some (bid, s) ->
+  ((exists t, tr = Some t) \/ (tr = None /\ v = NaN)) ->
   exists m' out, dehb_mgr_on_result (d_mgr st) bid
-                   (mkSIR (rung_index s) (level s) (slot_index s) (Some t) (Some v)) = Ok (m', out) /\
+                   (mkSIR (rung_index s) (level s) (slot_index s) tr (Some v)) = Ok (m', out) /\
     DInv rss md (mkD m' (remove_nth (d_out st) k)).
 Proof.
-  intros rss md [[rs md0 bs offs p] O] k bid s t v OK I Hk.
+  intros rss md [[rs md0 bs offs p] O] k bid s tr v OK I Hk TR.
   destruct I as [I1 I2 I3 I4 I5 I6 I7 I8 I9]. cbn [d_mgr d_out m_rs m_mode m_brackets m_offsets m_primary] in *.
   subst rs md0. assert (OK' := OK). destruct OK' as [NE CKs].
   destruct (remove_nth_split _ _ _ Hk) as [O1 [O2 [EO ER]]]. rewrite ER.
@@ -2556,12 +2560,14 @@ Proof.
   assert (Pb : (p <= bid)%nat).
   { destruct (Nat.le_gt_cases p bid) as [X|X]; [exact X|]. rewrite (I5 _ _ Nb X) in NC. discriminate. }
   assert (Bb := I7 _ _ Nb).
-  set (r := mkSIR (rung_index s) (level s) (slot_index s) (Some t) (Some v)).
+  set (r := mkSIR (rung_index s) (level s) (slot_index s) tr (Some v)).
   destruct (dbor_ok b r sl lv None v C E1 E2 E3 E4 eq_refl) as [b' [out R]].
-  assert (Bb' : DB (nth (bid mod length rss) rss []) md b') by (eapply db_answer; eauto; reflexivity).
+  assert (Bb' : DB (nth (bid mod length rss) rss []) md b').
+  { eapply db_answer; eauto. unfold r. cbn [trial_id metric_val].
+    destruct TR as [[t ->]|[-> ->]]; [left; eauto|right; auto]. }
   destruct (dbor_inv _ _ _ _ _ _ C R) as [_ [_ [_ [_ [v' [MV' Cases]]]]]].
   simpl in MV'. inversion MV'; subst v'. clear MV'. cbv zeta in Cases. simpl trial_id in Cases. simpl slot_index in Cases.
-  set (sl' := upd sl (slot_index s) (Some t, Some v)) in *.
+  set (sl' := upd sl (slot_index s) (tr, Some v)) in *.
   assert (Lc : (current_rung b < length (rungs b))%nat) by (eapply nth_error_lt; eauto).
   assert (Shape : (is_full sl' (first_free_pos b) = false /\ current_rung_and_level b' = Ok (sl', lv) /\
                    first_free_pos b' = first_free_pos b /\ current_rung b' = current_rung b)
@@ -2643,14 +2649,19 @@ Qed.
 Lemma dstep_inv : forall rss md st o, rss_ok rss -> DInv rss md st ->
   exists st', dstep st o = Ok st' /\ DInv rss md st'.
 Proof.
-  intros rss md st o OK I. destruct o as [|i t v]; simpl.
-  - destruct (dnext_inv _ _ _ OK I) as [m' [bid [s [E [I' _]]]]]. rewrite E. eauto.
-  - destruct (d_out st) as [|j0 O'] eqn:EO; [eauto|]. rewrite <- EO.
+  intros rss md st o OK I.
+  assert (Ans : forall i tr v, ((exists t, tr = Some t) \/ (tr = None /\ v = NaN)) ->
+            exists st', danswer st i tr v = Ok st' /\ DInv rss md st').
+  { intros i tr v TR. unfold danswer. destruct (d_out st) as [|j0 O'] eqn:EO; [eauto|]. rewrite <- EO.
     assert (Lk : (i mod length (d_out st) < length (d_out st))%nat).
     { apply Nat.mod_upper_bound. rewrite EO. simpl. lia. }
     destruct (nth_error (d_out st) (i mod length (d_out st))) as [[bid s]|] eqn:Hk.
     2:{ apply nth_error_None in Hk. lia. }
-    destruct (dret_inv _ _ _ _ _ _ t v OK I Hk) as [m' [out [E I']]]. rewrite E. eauto.
+    destruct (dret_inv _ _ _ _ _ _ tr v OK I Hk TR) as [m' [out [E I']]]. rewrite E. eauto. }
+  destruct o as [|i t v|i]; simpl.
+  - destruct (dnext_inv _ _ _ OK I) as [m' [bid [s [E [I' _]]]]]. rewrite E. eauto.
+  - apply Ans. left. eauto.
+  - apply Ans. right. auto.
 Qed.
 
 Lemma drun_inv : forall rss md ops st, rss_ok rss -> DInv rss md st ->
@@ -2710,7 +2721,7 @@ Theorem dehb_rungs_filled : forall first md nb ops m0 st, dehb_mgr_init first md
     nth_error (m_offsets (d_mgr st)) j = Some (j mod length rss)%nat /\
     map entry_shape (rungs b) = nth (j mod length rss) rss [] /\
     (forall k sl lv, (k < current_rung b)%nat -> nth_error (rungs b) k = Some (Filled sl lv) ->
-       Forall (fun s => exists t v, s = (Some t, Some v)) sl) /\
+       Forall (fun s => snd s <> None /\ dslot_ok s) sl) /\
     (forall k sl lv, (current_rung b < k)%nat -> nth_error (rungs b) k = Some (Filled sl lv) ->
        Forall (fun s => s = (None, None)) sl).
 Proof.
@@ -2759,7 +2770,7 @@ Proof.
   destruct (db_filled _ _ _ B _ _ Np) as [prev [lvp ->]].
   assert (Occ := db_done _ _ _ B (current_rung b - 1)%nat prev lvp ltac:(lia) Np).
   destruct (occupied_values_all prev) as [vals [OV [MF _]]].
-  { rewrite Forall_forall in Occ. intros s Hs. destruct (Occ _ Hs) as [t [v ->]]. discriminate. }
+  { rewrite Forall_forall in Occ. intros s Hs. exact (proj1 (Occ _ Hs)). }
   destruct (occupied_values_some _ _ OV) as [_ LV].
   assert (CK : check_rungs (nth (bid mod length (dehb_rss first nb)) (dehb_rss first nb) []) = true) by (apply CKs, mod_lt_len, NE).
   destruct (check_rungs_spec _ CK) as [_ [_ Dec]].
